@@ -1,6 +1,300 @@
-"""Verus units: templates in /verif/verus/*.rs.in (filled in later)."""
+"""Verus engine: templates /verif/verus/*.rs.in -> /verif/build/verus/<unit>.rs (functions extracted mechanically from
+/repo on every run, closed rewrite list per extraction) -> `verus <file> --output-json --time`.
+
+Template directives (each on its own line):
+  //@unit name=<n> props=C03,C08 [tier=thorough] [pair=<kani harness>]
+  //@trusted <free text>                         an assumption listed in trusted_base
+  //@extract file=<repo-relative> item=<spec> [mode=body|fn|item]
+        item spec:  `impl <regex> :: fn <name>`  |  `fn <name>`  |  `struct <Name>` | `enum <Name>`
+        mode=body (default for fn): the statements between the outer braces;  mode=item: the whole item text
+  //@rewrite s/<regex>/<replacement>/ count=<n> reason=<text>     applies to the preceding extract; must fire exactly n times
+  //@end                                         end of the rewrite list; the (rewritten) text is spliced here
+
+Obligations: every `fn` / `proof fn` in the generated file that is not `spec`, not `#[verifier::external_body]`.
+Functions named `canary_*` MUST fail (vacuity guard: same precondition, `ensures false`).
+"""
+import hashlib
+import json
+import os
+import re
+import subprocess
+import sys
+import time
+
+VERIF = os.path.dirname(os.path.dirname(os.path.abspath(__file__)))
+REPO = os.environ.get('VERIF_REPO', '/repo')
+OUT = os.path.join(VERIF, 'build', 'verus')
+sys.path.insert(0, os.path.join(VERIF, 'extract'))
+import rustx  # noqa: E402
+
+
+class UnitProblem(Exception):
+    pass
+
+
+def parse_kv(s):
+    d = {}
+    for mo in re.finditer(r'(\w+)=("([^"]*)"|\S+)', s):
+        d[mo.group(1)] = mo.group(3) if mo.group(3) is not None else mo.group(2)
+    return d
+
+
 def discover(prop, tier, only=None):
-    return []
+    units = []
+    d = os.path.join(VERIF, 'verus')
+    if not os.path.isdir(d):
+        return units
+    for fn in sorted(os.listdir(d)):
+        if not fn.endswith('.rs.in'):
+            continue
+        path = os.path.join(d, fn)
+        head = open(path).read(4000)
+        mo = re.search(r'^//@unit (.*)$', head, re.M)
+        if not mo:
+            continue
+        kv = parse_kv(mo.group(1))
+        if prop not in kv.get('props', '').split(','):
+            continue
+        if kv.get('tier') == 'thorough' and tier != 'thorough':
+            continue
+        if only and only not in kv['name']:
+            continue
+        units.append(dict(name=kv['name'], path=path, props=kv['props'].split(','), pair=kv.get('pair')))
+    return units
+
+
+def find_item(src, spec):
+    """returns (start, body_open, body_close) for the item spec"""
+    spec = spec.strip()
+    mo = re.match(r'impl\s+(.*?)\s*::\s*fn\s+(\w+)$', spec)
+    if mo:
+        parts = src.impl_parts(r'impl\b[^{;]*?' + mo.group(1))
+        return src.fn_in(mo.group(2), parts['body_open'], parts['body_close'])
+    mo = re.match(r'fn\s+(\w+)$', spec)
+    if mo:
+        return src.fn_in(mo.group(1), 0, len(src.text))
+    mo = re.match(r'(struct|enum)\s+(\w+)$', spec)
+    if mo:
+        return src.find_block_item(r'(?:pub(?:\([a-z]+\))?\s+)?%s\s+%s\b' % (mo.group(1), mo.group(2)))
+    raise UnitProblem('bad item spec %r' % spec)
+
+
+def generate(unit):
+    text = open(unit['path']).read()
+    lines = text.split('\n')
+    out = []
+    extracted = []
+    rewrites = []
+    trusted = []
+    i = 0
+    while i < len(lines):
+        ln = lines[i]
+        if ln.startswith('//@trusted '):
+            trusted.append('%s: %s' % (unit['name'], ln[len('//@trusted '):].strip()))
+            out.append(ln)
+            i += 1
+            continue
+        if not ln.lstrip().startswith('//@extract '):
+            out.append(ln)
+            i += 1
+            continue
+        kv = parse_kv(ln.strip()[len('//@extract '):])
+        rel = kv['file']
+        path = os.path.join(REPO, rel)
+        if not os.path.exists(path):
+            raise UnitProblem('file missing: %s' % rel)
+        src = rustx.Src(path)
+        try:
+            s, o, c = find_item(src, kv['item'])
+        except rustx.ExtractError as e:
+            raise UnitProblem('anchor lost: %s (%s)' % (kv['item'], e))
+        mode = kv.get('mode', 'body')
+        if mode == 'body':
+            chunk = src.text[o + 1:c]
+        elif mode == 'item':
+            chunk = src.text[s:c + 1]
+        else:
+            raise UnitProblem('bad mode %r' % mode)
+        if chunk not in src.text:
+            raise UnitProblem('extracted text is not a substring of the source')
+        sha = hashlib.sha256(chunk.encode()).hexdigest()[:16]
+        extracted.append(dict(file=rel, item=kv['item'], sha=sha, mode=mode))
+        # rewrites
+        i += 1
+        while i < len(lines) and not lines[i].lstrip().startswith('//@end'):
+            r = lines[i].strip()
+            if r.startswith('//@rewrite '):
+                mo = re.match(r'//@rewrite s/(.*)/(.*)/ count=(\d+) reason=(.*)$', r)
+                if not mo:
+                    raise UnitProblem('bad rewrite line: %s' % r)
+                pat, rep, cnt, reason = mo.group(1), mo.group(2), int(mo.group(3)), mo.group(4)
+                chunk, n = re.subn(pat, rep.replace('\\n', '\n'), chunk, flags=re.S)
+                if n != cnt:
+                    raise UnitProblem('rewrite %r fired %d times, expected %d (in %s %s)' % (pat, n, cnt, rel, kv['item']))
+                rewrites.append(dict(unit=unit['name'], item=kv['item'], regex=pat, replacement=rep, fired=n, reason=reason))
+            elif r and not r.startswith('//'):
+                raise UnitProblem('unexpected line inside extract block: %s' % r)
+            i += 1
+        if i >= len(lines):
+            raise UnitProblem('missing //@end')
+        out.append('// ---- begin extracted: %s :: %s (sha256/16 %s) ----' % (rel, kv['item'], sha))
+        out.append(chunk)
+        out.append('// ---- end extracted ----')
+        i += 1
+    os.makedirs(OUT, exist_ok=True)
+    gen = os.path.join(OUT, unit['name'] + '.rs')
+    open(gen, 'w').write('\n'.join(out))
+    return gen, extracted, rewrites, trusted
+
+
+FN_RE = re.compile(r'^[ \t]*((?:pub(?:\([a-z]+\))?\s+)?(?:open\s+|closed\s+)?(?:(?:proof|spec|exec)\s+)?(?:const\s+)?fn)\s+(\w+)', re.M)
+
+
+def list_functions(gen_path):
+    """[(name, kind, start_line, end_line, external)] for every fn with a body in the generated file"""
+    src = rustx.Src(gen_path)
+    res = []
+    for mo in FN_RE.finditer(src.text):
+        if not src.mask[mo.start(2)]:
+            continue
+        head = mo.group(1)
+        kind = 'spec' if 'spec' in head else ('proof' if 'proof' in head else 'exec')
+        # find body or ';'
+        j = mo.end()
+        t, m = src.text, src.mask
+        body = None
+        while j < len(t):
+            if m[j]:
+                if t[j] == '{':
+                    body = (j, src.match_close(j))
+                    break
+                if t[j] in '([':
+                    j = src.match_close(j)
+                elif t[j] == ';':
+                    break
+            j += 1
+        if not body:
+            continue
+        start_line = t.count('\n', 0, mo.start()) + 1
+        end_line = t.count('\n', 0, body[1]) + 1
+        pre = t[max(0, mo.start() - 300):mo.start()]
+        attrs = re.findall(r'#\[verifier::(\w+)', pre.split('}')[-1])
+        external = any(a in ('external_body', 'external') for a in attrs)
+        res.append(dict(name=mo.group(2), kind=kind, start=start_line, end=end_line, external=external))
+    return res
+
+
+def scan_assumptions(gen_path):
+    txt = open(gen_path).read()
+    found = []
+    for k, ln in enumerate(txt.split('\n'), 1):
+        s = ln.strip()
+        if s.startswith('//'):
+            continue
+        for pat in ('assume(', 'admit(', 'external_body', 'assume_specification', '#[verifier::external', 'verifier::truncate'):
+            if pat in s:
+                found.append((k, pat, s[:140]))
+    return found
+
 
 def run_units(units, tier):
-    return []
+    results = []
+    for u in units:
+        t0 = time.time()
+        res = dict(name=u['name'], obligations=[], problems=[], extracted=[], rewrites=[], trusted=[], pair=u.get('pair'))
+        try:
+            gen, extracted, rewrites, trusted = generate(u)
+        except (UnitProblem, rustx.ExtractError) as e:
+            res['problems'].append('extraction: %s' % e)
+            results.append(res)
+            continue
+        res.update(generated=gen, extracted=extracted, rewrites=rewrites)
+        cmd = ['verus', gen, '--output-json', '--time', '--multiple-errors', '20']
+        try:
+            p = subprocess.run(cmd, stdout=subprocess.PIPE, stderr=subprocess.PIPE, text=True, timeout=900)
+        except subprocess.TimeoutExpired:
+            res['problems'].append('verus timed out')
+            results.append(res)
+            continue
+        res['cmd'] = ' '.join(cmd)
+        # stdout = JSON (possibly preceded by notes); stderr = diagnostics
+        js = None
+        try:
+            js = json.loads(p.stdout[p.stdout.index('{'):])
+        except (ValueError, json.JSONDecodeError):
+            pass
+        fns = list_functions(gen)
+        errors = []
+        cur = None
+        for ln in p.stderr.split('\n'):
+            mo = re.match(r'(error|warning|note)(\[\w+\])?: (.*)$', ln)
+            if mo:
+                cur = dict(level=mo.group(1), msg=mo.group(3), lines=[])
+                if mo.group(1) == 'error':
+                    errors.append(cur)
+                continue
+            mo = re.match(r'\s*--> (.*?):(\d+):(\d+)', ln)
+            if mo and cur is not None:
+                cur['lines'].append(int(mo.group(2)))
+        vr = (js or {}).get('verification-results', {})
+        if js is None or vr.get('encountered-vir-error') or ('verified' not in vr):
+            msgs = [e['msg'] for e in errors[:4]]
+            res['problems'].append('verus did not produce verification results (compile / unsupported construct): %s' % '; '.join(msgs))
+            res['stderr'] = p.stderr[-3000:]
+            results.append(res)
+            continue
+        smt_s = (js.get('times-ms', {}).get('smt', {}).get('total', 0)) / 1000.0
+        total_s = (js.get('times-ms', {}).get('total', 0)) / 1000.0
+        # map errors to functions
+        failed = {}
+        unmapped = []
+        for e in errors:
+            if e['msg'].startswith('aborting due to'):
+                continue
+            hit = None
+            for ln in e['lines']:
+                for f in fns:
+                    if f['start'] <= ln <= f['end']:
+                        hit = f['name']
+                        break
+                if hit:
+                    break
+            if hit:
+                failed.setdefault(hit, []).append('%s (line %s)' % (e['msg'], e['lines'][:2]))
+            else:
+                unmapped.append(e['msg'])
+        if 'rlimit' in p.stderr or 'Resource limit' in p.stderr:
+            res['problems'].append('verus resource limit (rlimit) exceeded')
+        if unmapped:
+            res['problems'].append('verus errors outside any function: %s' % '; '.join(unmapped[:3]))
+        n_ob = 0
+        for f in fns:
+            if f['kind'] == 'spec' or f['external'] or f['name'] == 'main':
+                continue
+            name = '%s::%s' % (u['name'], f['name'])
+            if f['name'].startswith('canary_'):
+                # must fail
+                if f['name'] not in failed:
+                    res['problems'].append('vacuity guard: %s verified, so the precondition it copies is contradictory' % f['name'])
+                continue
+            n_ob += 1
+            if f['name'] in failed:
+                res['obligations'].append(dict(name=name, status='failed', errors=failed[f['name']], kind=f['kind']))
+            else:
+                res['obligations'].append(dict(name=name, status='verified', kind=f['kind'], time_s=None))
+        expected_verified = vr.get('verified', 0)
+        res['verus_verified'] = expected_verified
+        res['verus_errors'] = vr.get('errors', 0)
+        res['smt_time_s'] = smt_s
+        res['wall_s'] = round(time.time() - t0, 2)
+        if res['obligations']:
+            res['obligations'][0]['time_s'] = total_s
+        if n_ob == 0:
+            res['problems'].append('no obligations in generated file')
+        # assumption scan -> trusted base
+        tb = list(trusted)
+        for (ln, pat, s) in scan_assumptions(gen):
+            tb.append('%s: %s at generated line %d: %s' % (u['name'], pat, ln, s))
+        res['trusted'] = tb
+        results.append(res)
+    return results
